@@ -15,6 +15,8 @@ res={}
 for c in checks:
     seg=log.split('== check %s against the mutant'%c)[1].split('== check')[0] if ('== check %s against the mutant'%c) in log else ''
     res[c]='detected' if 'VIOLATION property=%s'%c in seg else ('infra' if 'INFRA' in seg else 'missed')
+if meta.get('checks_run') and meta['checks_run']!=res:
+    meta.setdefault('checks_run_earlier',[]).append(meta['checks_run'])
 meta['checks_run']=res
 meta['what_i_ran']='tools/try_mutant.sh (scratch worktree: apply patch, go build ./..., demo both ways, go test of touched packages, then VERIF_REPO=<worktree> bin/check <id> quick tier)'
 json.dump(meta,open(os.path.join(d,'meta.json'),'w'),indent=1)
